@@ -48,7 +48,7 @@ impl Prop for C17 {
         "exploration"
     }
     fn rule(&self) -> String {
-        "complete enumeration: suites x (n,t) x id kinds x dealer/DKG x EVERY signer subset x randomizer sources {seeded x2-4, constant seeds, explicit 0 / 1 / q-1 / seeded}; oracles: participant-regenerated params = coordinator's, sign/aggregate Ok, signature verifies under the randomized key (library + independent verifier) and not under the original key unless the randomizer is 0, randomizer = independent hash(seed || independently encoded commitment list); EVERY single-byte change of the seed and EVERY replacement of any hiding/binding commitment changes the randomizer; a participant with a tampered seed or package is exactly the culprit; C04's cheater menu (every cheater subset) and C03's below-threshold menu give the same verdicts through the re-randomized aggregate. Non-trivial = session aggregated".into()
+        "complete enumeration: suites x (n,t) x id kinds x dealer/DKG x EVERY signer subset x randomizer sources {seeded x2-4, constant seeds, explicit 0 / 1 / q-1 / seeded}; oracles: participant-regenerated params = coordinator's, sign/aggregate Ok, signature verifies under the randomized key (library + independent verifier) and not under the original key unless the randomizer is 0, randomizer = independent hash(seed || independently encoded commitment list); EVERY single-byte change of the seed and EVERY replacement of any hiding/binding commitment changes the randomizer; a participant with a tampered seed or package is exactly the culprit; C04's cheater menu (every cheater subset) and C03's below-threshold menu give the same verdicts through the re-randomized aggregate; one large session (130-260 signers). Non-trivial = session aggregated".into()
     }
     fn assumptions(&self) -> Vec<String> {
         vec!["seeds are seeded streams plus constant extremes; the randomizer hash is recomputed with an independently written hash-to-scalar".into()]
